@@ -93,6 +93,17 @@ theorem padd_len (p q : List F) : (padd p q).length = max p.length q.length := b
 theorem pscale_len (c : F) (p : List F) : (pscale c p).length = p.length := by
   simp [pscale]
 
+@[simp] theorem fpow_zero (x : F) : fpow x 0 = 1 := rfl
+theorem fpow_succ (x : F) (n : Nat) : fpow x (n + 1) = x * fpow x n := rfl
+
+theorem fpow_add (x : F) (a b : Nat) : fpow x (a + b) = fpow x a * fpow x b := by
+  induction a with
+  | zero => simp [fpow]
+  | succ a ih => rw [Nat.succ_add]; simp only [fpow, ih]; ring
+
+theorem fpow_succ' (x : F) (a : Nat) : fpow x (a + 1) = fpow x a * x := by
+  rw [fpow_add]; simp [fpow]
+
 theorem eval_pshift (k : Nat) (p : List F) (x : F) :
     evalPoly (pshift k p) x = fpow x k * evalPoly p x := by
   induction k with
